@@ -14,5 +14,6 @@ if [ ! -d build/pydeps/numpy ]; then
   /venv/bin/pip install -q --no-index --find-links /opt/veriftools/wheels --target build/pydeps numpy >/dev/null 2>&1 || echo "setup: numpy wheel install failed (python target checks will report it)" >&2
 fi
 /venv/bin/python -m tools.translators.gen || echo "setup: a translator failed closed (the affected check will report it)" >&2
-( cd coq && coq_makefile -f _CoqProject -o Makefile >/dev/null && timeout 3000 make -j"$(nproc)" -k 2>&1 | tail -5 )
+/venv/bin/python -c "from tools.lib import core; core._ensure_makefile()"
+( cd coq && timeout 3000 make -j"$(nproc)" -k 2>&1 | tail -5 )
 exit $fail
